@@ -223,6 +223,11 @@ def build_class(run, cs):
     bases = []
     if base is not None:
         bases.append(base)
+    mix = [world.classes[x] for x in cs.get("mixins", ())]
+    if cs.get("mixin_first"):
+        bases = mix + bases
+    else:
+        bases = bases + mix
     if shape == "namedtuple":
         bases.append(collections.namedtuple(name + "Base", ["x"]))
     if shape == "listlike" and base is None:
@@ -266,7 +271,7 @@ def build_class(run, cs):
             c.__name__ = "i_" + core._san(_sid)
             return c
 
-        dec = icontract.invariant(mk(sid), description="[[%s]]" % sid, enabled=True, check_on=CHECK_ON[inv.get("check_on", "CALL")])
+        dec = icontract.invariant(mk(sid), description="[[%s]]" % sid, check_on=CHECK_ON[inv.get("check_on", "CALL")], **core.World._enabled_kw(inv))
         cls = dec(cls)
         world.contracts[sid] = dec._invariant
     world.classes[name] = cls
@@ -301,21 +306,48 @@ def _spec_has_init(world, cname):
 # the invariant model
 # -------------------------------------------------------------------------------------------------
 def hierarchy(scn, cname):
+    """The class, its plain mix-ins and its ancestors, most derived first; the last element is always the root of the
+    contract-base chain (callers read the shape from it).  Mix-ins are plain classes without invariants, so for the model
+    only the set of members and invariants matters, not the exact linearisation."""
     out = []
     specs = {c["name"]: c for c in scn["classes"]}
     c = specs[cname]
     while c is not None:
         out.append(c)
+        out.extend(specs[x] for x in c.get("mixins", ()))
         c = specs.get(c.get("base")) if c.get("base") else None
-    return out
+    return _root_last(out)
+
+
+def _root_last(seq):
+    """Keep the order but make sure the root of the base chain is the last element (callers read the shape from it)."""
+    mix = [x for x in seq if x.get("is_mixin")]
+    chain = [x for x in seq if not x.get("is_mixin")]
+    return chain[:-1] + mix + chain[-1:] if chain else mix
+
+
+def _effective(form, cfg):
+    """Is a contract with this ``enabled`` form in force in the interpreter configuration ``cfg``?"""
+    if form == "true":
+        return True
+    if form == "false":
+        return False
+    if form == "default":
+        return not cfg["optimize"]
+    if form == "slow":
+        return (not cfg["optimize"]) and bool(cfg["slow"])
+    raise ValueError(form)
 
 
 def inv_sets(scn, cname):
     """(all, on_call, on_setattr) invariant site ids of the class and its ancestors."""
     al, oc, os_ = set(), set(), set()
+    cfg = scn.get("_cfg")
     for c in hierarchy(scn, cname):
         for i, inv in enumerate(c.get("invs", ())):
             sid = "%s/inv%d" % (c["name"], i)
+            if cfg is not None and not _effective(inv.get("enabled", "true"), cfg):
+                continue
             al.add(sid)
             if inv.get("check_on", "CALL") in ("CALL", "ALL"):
                 oc.add(sid)
@@ -359,7 +391,7 @@ def expected(scn, cname, op):
 # -------------------------------------------------------------------------------------------------
 # generation
 # -------------------------------------------------------------------------------------------------
-def generate(r, tier):
+def generate(r, tier, forms=False):
     engine = "sync" if r.random() < 0.8 else "loop"
     classes = []
     n_roots = 1
@@ -444,8 +476,20 @@ def generate(r, tier):
             c["members"].append(dict(r.choice(base_methods)))
         for i in range(r.randint(0, 2)):
             c["invs"].append({"check_on": r.choice(inv_mix)})
+        if r.random() < 0.3 and root["shape"] in ("plain", "slots") and prev["shape"] != "slots":
+            # a plain mix-in (no contract base, no invariants) providing public methods, listed before or after the contract base
+            mx = {"name": "M%d" % lvl, "shape": "plain", "dbc": False, "is_mixin": True, "invs": [], "members": [{"name": "mx%d" % lvl, "kind": "method"}], "init": None}
+            if r.random() < 0.4 and base_methods:
+                mx["members"].append(dict(r.choice(base_methods)))  # the mix-in overrides a public method of the base
+            classes.append(mx)
+            c["mixins"] = [mx["name"]]
+            c["mixin_first"] = r.random() < 0.5
         classes.append(c)
         prev = c
+    if forms:
+        for c in classes:
+            for inv in c["invs"]:
+                inv["enabled"] = r.choice(["true", "true", "default", "default", "slow"])
     scn = {"property": ID, "engine": engine, "classes": classes, "ops": []}
     # operations
     objs = {}
@@ -454,7 +498,7 @@ def generate(r, tier):
     ops = []
     for i in range(r.randint(3, 12)):
         if not objs or (r.random() < 0.15 and nobj < 3):
-            c = r.choice(classes)
+            c = r.choice([x for x in classes if not x.get("is_mixin")])
             label = "o%d" % nobj
             nobj += 1
             op = {"op": "new", "cls": c["name"], "obj": label}
@@ -754,6 +798,11 @@ def judge(scn, run):
     for xid, sid, olabel in run.inv_during_ctor:
         violations.append({"rule": "C03.R3", "classifier": "invariant-evaluated-during-construction", "detail": {"call": xid, "invariant": sid, "object": olabel}})
         break
+    # nested public calls on an object that is in progress (made from a body of its own public method): no invariant at all
+    for n, a, kind, sid, xid, detail in run.log:
+        if kind == "inv" and xid is not None and ".n" in xid.split("#")[0]:
+            violations.append({"rule": "C03.R1", "classifier": "invariant-evaluated-around-nested-call-on-object-in-progress", "detail": {"call": xid, "invariant": sid, "object": detail}})
+            break
     # walk the log per top-level operation
     per = {}
     for n, a, kind, sid, xid, detail in run.log:
